@@ -88,6 +88,13 @@ CHECKS["C16"] = E("C16", "Every message built from <=2 (thorough: <=3) of 35 fea
 CHECKS["C07"] = E("C07", "The independent RFC 3501 response tokenizer runs over every byte sent while every message shape (as C16) is fetched with ENVELOPE, BODYSTRUCTURE, BODY, sections, header-field lists, "
    "INTERNALDATE and FLAGS; decoded ENVELOPE strings must give back the header values; mailbox names/keywords with quotes, backslashes, 8-bit, wildcards, brackets go through LIST/LSUB/STATUS/SELECT; "
    "error paths echo hostile input (CR LF, quotes, 300 octets). The same tokenizer also runs inside every other check.")
+CHECKS["C18"] = dict(cat="model_checking", engine="H-history-bfs", tech="explicit-state BFS of the real login throttle against a reference automaton + exhaustive pre-authentication command matrix",
+   text="Throttle: breadth-first search to depth 6 (thorough 8) from three start states where every transition is a real LOGIN or POP3 USER/PASS through the front-end for "
+        "(3 users x 2 addresses x good/bad password) or a clock advance of 1/30/59/61 s; states are the implementation's failure tables relative to now; a reference automaton driven by "
+        "the same virtual timestamps must allow every observed answer. Gate: every IMAP command (incl. UID forms) and POP3 command in six pre-authentication states must neither request a "
+        "user-process connection, relay bytes, nor return mailbox data; LOGIN / USER+PASS for every (account kind x password variant x encoding) succeed iff usable account and exact password.",
+   note="No TLS, sockets or real subprocess; accounts hashed with PBKDF2-SHA1/1 iteration; at exactly 60 s either answer is accepted. Trusted: vf/frontend.py stubs, the reference automaton in vf/props/c18.py.",
+   ref="DESIGN.md section 4 C18")
 NOT_YET = {}
 
 def main():
